@@ -174,7 +174,8 @@ add('C14', "spec/AsJson.tla: the depth-first walk of asjson (containers on the c
     "containers (dict / list / object; shared and cyclic edges); TLC checks Terminates and CyclesCut and prints the expected output shape; every graph is "
     "rebuilt from real dicts, lists and Node objects and pushed through asjson + json.dumps under a recursion limit and wall-clock guard. Grammar models "
     "(full-language corpus, token/constant texts that look like style escapes, format specs or class markers, core grammars whose behaviour PegSem "
-    "specifies) go through asjson->Grammar.load, asjsons, pickle, to_parsermodel_sourcecode->exec (GRAMMAR_MODEL and the generated parser class); each "
+    "specifies) go through asjson->Grammar.load, asjsons, pickle (also the asmodel=True variant of every grammar), to_parsermodel_sourcecode->exec "
+    "(GRAMMAR_MODEL and the generated parser class); each "
     "reloaded model must have the same rules/directives/keywords (from_model) and the same behaviour on the battery.",
     "Trusted: TLC, projections. Shared (acyclic) references may be expanded rather than referenced: the claim checked is termination, dumpability and cycle cutting.",
     "TLA+ spec AsJson (exhaustive object graphs) + PegSem as oracle of the original grammar + serialisation round-trip replay", "5 C14, 3.7")
